@@ -85,10 +85,17 @@ func runOne(p Property, seed uint64, i int, enumerated bool) (Result, []uint64) 
 }
 
 // Shrink minimises entries while the same clause keeps failing.
+// Shrinking is true while candidate tapes are being re-executed (properties may use
+// cheaper watchdogs then; the final confirmation run is done with it false).
+var Shrinking bool
+
 func Shrink(p Property, entries []uint64, clause string, maxTries int) ([]uint64, Result, int) {
 	tries := 0
+	deadline := time.Now().Add(3 * time.Minute)
+	Shrinking = true
+	defer func() { Shrinking = false }()
 	fails := func(e []uint64) bool {
-		if tries >= maxTries {
+		if tries >= maxTries || time.Now().After(deadline) {
 			return false
 		}
 		tries++
@@ -179,6 +186,7 @@ func Shrink(p Property, entries []uint64, clause string, maxTries int) ([]uint64
 		trim()
 	}
 	// final confirmation run
+	Shrinking = false
 	r := p.Run(tape.Replay(cur))
 	if r.Violation == nil || r.Violation.Clause != clause {
 		return entries, Result{}, tries
